@@ -63,7 +63,7 @@ ASSUMPTIONS = [
     'known defects of C11 are matched by their own signatures: every valid LIS file fails (C11-lis-null-value)',
 ]
 SHARDS = {'quick': 4, 'thorough': 16}
-REQUIRED_CLASSES = {'sub-directories:two-levels-down-recursive': 1, 'directories-given-as-relative-paths': 1, 'name-begins-with-the-whole-name-of-a-bad-file': 1, 'dot-name': 1, 'nontrivial': 1, 'jobs>1': 1, 'foreign-file': 1, 'damaged-sorts-first:names': 1, 'damaged-sorts-first:sizes': 1, 'empty-file': 1,
+REQUIRED_CLASSES = {'sub-directories:two-levels-down-recursive': 1, 'input-is-a-symbolic-link': 1, 'directories-given-as-relative-paths': 1, 'name-begins-with-the-whole-name-of-a-bad-file': 1, 'dot-name': 1, 'nontrivial': 1, 'jobs>1': 1, 'foreign-file': 1, 'damaged-sorts-first:names': 1, 'damaged-sorts-first:sizes': 1, 'empty-file': 1,
                     'converter:RP66V1': 1, 'converter:LIS': 1, 'converter:BIT': 1, 'orders-differ': 1}
 
 O_ESCAPE = 'no-exception-escapes'
@@ -342,6 +342,9 @@ def check(case, cc):
     recurse = bool(case.get('recurse'))
     walked = [i for i in range(len(files)) if recurse or not files[i].get('dir')]      # the files a walk of the directory finds
     cc.cls('name-begins-with-the-whole-name-of-a-bad-file', any(f.get('prefixed_by') for f in files))
+    _sz = sum(len(d) for d in datas)
+    symlinked = (_sz % len(files)) if _sz % 5 == 0 else None      # one directory in five: one input is a symbolic link
+    cc.cls('input-is-a-symbolic-link', symlinked is not None)
     relative = (len(files) + len(files[0]['name'])) % 2 == 0
     cc.cls('directories-given-as-relative-paths', relative)
     cc.cls('dot-name', any(f['name'].startswith('.') or f.get('dir', '').startswith('.') for f in files))
@@ -402,8 +405,16 @@ def check(case, cc):
         tmp = '' if relative else real_tmp        # relative: the directories are given the way a user types them (in, out)
         dir_in = os.path.join(tmp, 'in')
         os.makedirs(dir_in)
-        for nm, d in zip(names, datas):
+        for k_, (nm, d) in enumerate(zip(names, datas)):
             os.makedirs(os.path.dirname(os.path.join(dir_in, nm)), exist_ok=True)
+            if k_ == symlinked:
+                # the input directory holds a symbolic link to a file kept elsewhere (a common way to assemble a job)
+                store = os.path.join(real_tmp, 'store')
+                os.makedirs(store, exist_ok=True)
+                with open(os.path.join(store, 'linked_%d' % k_), 'wb') as fh:
+                    fh.write(d)
+                os.symlink(os.path.join(store, 'linked_%d' % k_), os.path.join(dir_in, nm))
+                continue
             with open(os.path.join(dir_in, nm), 'wb') as fh:
                 fh.write(d)
         paths = [os.path.join(dir_in, nm) for nm in names]
